@@ -386,8 +386,10 @@ ares_status_t ares_cookie_validate(ares_query_t            *query,
 
   resp_cookie = ares_dns_cookie_fetch(dnsresp, &resp_cookie_len);
 
-  /* Invalid cookie length, drop */
-  if (resp_cookie && (resp_cookie_len < 8 || resp_cookie_len > 40)) {
+  /* Invalid cookie length, drop.  A client cookie is 8 bytes, a server cookie
+   * 8 to 32 (RFC 7873 Section 4): the option is 8 or 16 to 40 bytes long. */
+  if (resp_cookie && (resp_cookie_len < 8 || resp_cookie_len > 40 ||
+                      (resp_cookie_len > 8 && resp_cookie_len < 16))) {
     return ARES_EBADRESP;
   }
 
